@@ -358,7 +358,8 @@ def c05(trace):
                 prod = fx(x['price']) * x['qty']
                 cands = {rhe(prod)}
                 fr = prod - math.floor(prod)
-                if abs(fr - F(1, 2)) < F(1, 10 ** 6):
+                if fr != F(1, 2) and abs(fr - F(1, 2)) < F(1, 10 ** 6):
+                    # the float product may land on either side of a near tie; an exact tie goes to the even integer
                     cands |= {math.floor(prod), math.floor(prod) + 1}
                 if fee[0] == 'Z':
                     wants = [F(0)]
